@@ -1,2 +1,17 @@
 import BacVerif.Props.C03
-#print axioms BacVerif.C03.lookup_mem
+#print axioms BacVerif.C03.codec_roundtrip_partial
+#print axioms BacVerif.C03.codec_first_partial
+#print axioms BacVerif.C03.pdu_roundtrip_partial
+#print axioms BacVerif.C03.codec_reencode_partial
+#print axioms BacVerif.C03.codec_octets_partial
+#print axioms BacVerif.C03.gen_env_wf
+#print axioms BacVerif.C03.registry_lookup
+#print axioms BacVerif.C03.registries_total
+#print axioms BacVerif.C03.registered_pdu_roundtrip_partial
+#print axioms BacVerif.C03.good_all
+#print axioms BacVerif.C03.goodDef
+#print axioms BacVerif.C03.goodFields
+#print axioms BacVerif.C03.goodField
+#print axioms BacVerif.C03.goodAlts
+#print axioms BacVerif.C03.goodElems
+#print axioms BacVerif.C03.anyTake_balanced
